@@ -60,3 +60,78 @@ Proof.
       { unfold c. pose proof (Z.div_mod m k ltac:(lia)). pose proof (Z.mod_pos_bound m k Hk). split; nia. }
       destruct (0 <? m) eqn:Em; destruct (i * k <=? m) eqn:E2; try reflexivity; exfalso; lia.
 Qed.
+
+(* float on the left: LTfloatint / LEfloatint *)
+Lemma cmp_gt_iff a b : (match a ?= b with Gt => true | _ => false end) = (b <? a).
+Proof. rewrite Z.ltb_compare, (Z.compare_antisym a b). destruct (a ?= b); reflexivity. Qed.
+Lemma cmp_ge_iff a b : (match a ?= b with Gt | Eq => true | _ => false end) = (b <=? a).
+Proof. rewrite Z.leb_compare, (Z.compare_antisym a b). destruct (a ?= b); reflexivity. Qed.
+Lemma floor_lt_spec m k i : 0 < k -> (m / k < i <-> m < i * k).
+Proof.
+  intros Hk. pose proof (Z.div_mod m k ltac:(lia)). pose proof (Z.mod_pos_bound m k Hk). nia.
+Qed.
+Lemma ceil_le_spec m k i : 0 < k -> (- ((- m) / k) <= i <-> m <= i * k).
+Proof.
+  intros Hk. pose proof (Z.div_mod (- m) k ltac:(lia)). pose proof (Z.mod_pos_bound (- m) k Hk). nia.
+Qed.
+
+Lemma lua_lt_fi_exact i f : in_i64 i -> lua_lt_fi f i = exact_lt_fi f i.
+Proof.
+  intros Hi. unfold lua_lt_fi. destruct (l_intfitsf i) eqn:F; [rewrite (fits_rne i F); reflexivity|].
+  unfold exact_lt_fi, lua_flttoint, fl_neg. destruct f as [|n|m e]; cbn [cmp_Z_fl]; [reflexivity|destruct n; reflexivity|].
+  unfold fl_floor. destruct (0 <=? e) eqn:E.
+  - rewrite cmp_gt_iff. set (v := m * 2 ^ e).
+    assert (Hv : (m <? 0) = (v <? 0)).
+    { unfold v. pose proof (pow2_pos e ltac:(lia)). destruct (m <? 0) eqn:Em; symmetry; nia. }
+    rewrite Hv. destruct ((minint <=? v) && (v <=? maxint)) eqn:R; [reflexivity|].
+    unfold in_i64, minint, maxint, two63 in *. lia.
+  - rewrite cmp_gt_iff. set (k := 2 ^ (- e)). assert (Hk : 0 < k) by (apply pow2_pos; lia).
+    set (c := m / k). pose proof (floor_lt_spec m k i Hk) as Hc. fold c in Hc.
+    destruct ((minint <=? c) && (c <=? maxint)) eqn:R.
+    + destruct (c <? i) eqn:E1; destruct (m <? i * k) eqn:E2; try reflexivity; exfalso; lia.
+    + unfold in_i64, minint, maxint, two63 in *.
+      assert (Hs : (m < 0 -> c < 0) /\ (0 <= m -> 0 <= c)).
+      { unfold c. pose proof (Z.div_mod m k ltac:(lia)). pose proof (Z.mod_pos_bound m k Hk). split; nia. }
+      destruct (m <? 0) eqn:Em; destruct (m <? i * k) eqn:E2; try reflexivity; exfalso; lia.
+Qed.
+
+Lemma lua_le_fi_exact i f : in_i64 i -> lua_le_fi f i = exact_le_fi f i.
+Proof.
+  intros Hi. unfold lua_le_fi. destruct (l_intfitsf i) eqn:F; [rewrite (fits_rne i F); reflexivity|].
+  unfold exact_le_fi, lua_flttoint, fl_neg. destruct f as [|n|m e]; cbn [cmp_Z_fl]; [reflexivity|destruct n; reflexivity|].
+  unfold fl_ceil. destruct (0 <=? e) eqn:E.
+  - rewrite cmp_ge_iff. set (v := m * 2 ^ e).
+    assert (Hv : (m <? 0) = (v <? 0)).
+    { unfold v. pose proof (pow2_pos e ltac:(lia)). destruct (m <? 0) eqn:Em; symmetry; nia. }
+    rewrite Hv. destruct ((minint <=? v) && (v <=? maxint)) eqn:R; [reflexivity|].
+    unfold in_i64, minint, maxint, two63 in *. lia.
+  - rewrite cmp_ge_iff. set (k := 2 ^ (- e)). assert (Hk : 0 < k) by (apply pow2_pos; lia).
+    set (c := - (- m / k)). pose proof (ceil_le_spec m k i Hk) as Hc. fold c in Hc.
+    destruct ((minint <=? c) && (c <=? maxint)) eqn:R.
+    + destruct (c <=? i) eqn:E1; destruct (m <=? i * k) eqn:E2; try reflexivity; exfalso; lia.
+    + unfold in_i64, minint, maxint, two63 in *.
+      assert (Hs : (m < 0 -> c <= 0) /\ (0 <= m -> 0 <= c)).
+      { unfold c. pose proof (Z.div_mod (- m) k ltac:(lia)). pose proof (Z.mod_pos_bound (- m) k Hk). split; nia. }
+      destruct (m <? 0) eqn:Em; destruct (m <=? i * k) eqn:E2; try reflexivity; exfalso; lia.
+Qed.
+
+(* luaV_equalobj on an integer and a float *)
+Lemma lua_eq_if_exact i f : in_i64 i -> lua_eq_if i f = exact_eq_if i f.
+Proof.
+  intros Hi. unfold lua_eq_if, exact_eq_if.
+  destruct f as [|n|m e]; cbn [cmp_Z_fl]; try reflexivity; [destruct n; reflexivity|].
+  unfold fl_is_int, fl_floor. unfold in_i64 in Hi. destruct (0 <=? e) eqn:E.
+  - set (v := m * 2 ^ e) in *. clearbody v. destruct (i ?= v) eqn:C; cbv iota.
+    + apply Z.compare_eq in C. subst i. lia.
+    + change (i < v) in C. lia.
+    + apply Z.compare_gt_iff in C. lia.
+  - assert (0 < 2 ^ (- e)) by (apply pow2_pos; lia).
+    destruct (m mod 2 ^ (- e) =? 0) eqn:Em.
+    + assert (Hm : m = 2 ^ (- e) * (m / 2 ^ (- e))) by (pose proof (Z.div_mod m (2 ^ (- e))); lia).
+      destruct (i * 2 ^ (- e) ?= m) eqn:C; cbv iota.
+      * apply Z.compare_eq in C. subst m. rewrite Z.div_mul by lia. lia.
+      * change (i * 2 ^ (- e) < m) in C. nia.
+      * apply Z.compare_gt_iff in C. nia.
+    + destruct (i * 2 ^ (- e) ?= m) eqn:C; cbv iota; try reflexivity.
+      apply Z.compare_eq in C. subst m. rewrite Z.mod_mul in Em by lia. discriminate.
+Qed.
